@@ -4,6 +4,7 @@ package exif2
 
 import (
 	"sync"
+	"sync/atomic"
 	"time"
 )
 
@@ -15,18 +16,18 @@ var verifNew int64
 
 // VerifResetPools gives the package a fresh buffer pool and an empty time-zone cache.
 func VerifResetPools() {
-	bufferPool = sync.Pool{New: func() interface{} { verifNew++; return new(buffer) }}
+	bufferPool = sync.Pool{New: func() interface{} { atomic.AddInt64(&verifNew, 1); return new(buffer) }}
 	mutexTimeZones.Lock()
 	for k := range cacheTimeZone {
 		delete(cacheTimeZone, k)
 	}
 	mutexTimeZones.Unlock()
-	verifNew = 0
+	atomic.StoreInt64(&verifNew, 0)
 }
 
 // VerifNewBuffers reports how many buffers the pool had to allocate since the
 // last reset (0 after a decode means it ran on a pooled buffer).
-func VerifNewBuffers() int64 { return verifNew }
+func VerifNewBuffers() int64 { return atomic.LoadInt64(&verifNew) }
 
 // VerifPoisonPool puts n buffers into the pool whose scratch area is filled
 // with fill, whose tag array repeats tags, and whose counters are length / pos.
